@@ -35,6 +35,16 @@ mkloc, l_kind, l_k1, l_k2, l_marks = Loc.mkloc, Loc.kind, Loc.k1, Loc.k2, Loc.ma
 
 EMPTY = z3.StringVal("")
 
+import re as _re
+_ESC = _re.compile(r"\\u\{([0-9a-fA-F]+)\}|\\x([0-9a-fA-F]{2})")
+
+
+def zstr(term):
+    """The Python string a z3 string value denotes (z3 prints non-ASCII and control characters
+    as \\u{..} / \\x.. escapes)."""
+    raw = term.as_string()
+    return _ESC.sub(lambda m: chr(int(m.group(1) or m.group(2), 16)), raw)
+
 
 def loc(kind, k1=None, k2=None, marks=0):
     return mkloc(z3.IntVal(kind), EMPTY if k1 is None else k1, EMPTY if k2 is None else k2,
@@ -206,11 +216,16 @@ class Axioms:
         elif n == "py_lower" and not z3.is_string_value(t.arg(0)):
             add(z3.Implies(ishex(t.arg(0)), t == t.arg(0)))   # hex digits are lower-case already
             v = pyeval(t)
+            if v is not None:
+                add(t == z3.StringVal(v))
         elif n == "ishex":
             x = t.arg(0)
             add(z3.Implies(t, z3.And(x != EMPTY, z3.Not(hasws(x)))))
         elif n == "py_strip":
             x = t.arg(0)
+            v = pyeval(t)
+            if v is not None:
+                add(t == z3.StringVal(v))
             add((t == EMPTY) == allws(x))
             add(z3.Implies(z3.Not(hasws(x)), t == x))
             add(z3.Implies(z3.And(allws(x), x != EMPTY), hasws(x)))
@@ -228,7 +243,7 @@ class Axioms:
             x = t.arg(0)
             add(z3.Implies(x == EMPTY, z3.Not(t)))
             if z3.is_string_value(x):
-                add(t == z3.BoolVal(any(c.isspace() for c in x.as_string())))
+                add(t == z3.BoolVal(any(c.isspace() for c in zstr(x))))
         elif n == "fresh_tmp":
             fs, area = t.arg(0), t.arg(1)
             add(is_Absent(z3.Select(fs, mkloc(area, t, EMPTY, z3.IntVal(0)))))
@@ -272,7 +287,7 @@ class Axioms:
             add(t >= 0)
             x = t.arg(0)
             if z3.is_string_value(x):
-                add(t == sum(1 for c in x.as_string() if c.isdigit()))
+                add(t == sum(1 for c in zstr(x) if c.isdigit()))
 
     def inst_select(self, t):
         """Pointwise typing facts of identifier multisets (line files and locked lists):
@@ -319,7 +334,7 @@ PYFUN = {
 def pyeval(t):
     """Evaluate a ground term built from the modelled string functions with CPython itself."""
     if z3.is_string_value(t):
-        return t.as_string()
+        return zstr(t)
     if z3.is_app(t) and t.decl().name() in PYFUN and t.num_args() == 1:
         v = pyeval(t.arg(0))
         if v is not None:
